@@ -5,6 +5,7 @@ let res_bytes r = match r with Ok v -> "ok:" ^ hex_of_bytes v | Err -> "err"
 let tri_of_str s = match s with "F" -> TFalse | "T" -> TTrue | _ -> TUnknown
 let str_of_tri t = match t with TFalse -> "F" | TTrue -> "T" | TUnknown -> "U"
 (* contents: "-" = no /Contents hex literal, otherwise "v" followed by the hex of Value() *)
+let sf_of s = match s with "rfc3161" -> SF_RFC3161 | "cades" -> SF_CAdES | "pkcs7" -> SF_PKCS7Detached | _ -> SF_Other
 let contents_of s = if s = "-" then None else Some (bytes_of_hex (String.sub s 1 (String.length s - 1)))
 let dispatch fn args = match fn, args with
   | "byteRangeEnd", [a; b] -> res_z (byteRangeEnd w64 (z_of_hex a) (z_of_hex b))
@@ -17,15 +18,19 @@ let dispatch fn args = match fn, args with
   | "contentsGapMatches", [gap; c] -> str_of_bool (contentsGapMatches (bytes_of_hex gap) (bytes_of_hex c))
   | "bytesForByteRange", [f; arr] -> res_bytes (bytesForByteRange (bytes_of_hex f) (zlist_of_string arr))
   | "signedData", [f; arr; c] -> res_bytes (signedData (bytes_of_hex f) (zlist_of_string arr) (contents_of c))
-  | "boundaryOK", [fsize; arr; incr; dts] ->
-      str_of_bool (boundaryOK (z_of_hex fsize) (zlist_of_string arr) (z_of_hex incr) (bool_of_str dts))
-  | "applyHistorical", [incr; dts; d] ->
-      str_of_tri (applyHistorical (z_of_hex incr) (bool_of_str dts) (tri_of_str d))
-  | "docModified", [v; fsize; f; arr; c; incr; dts] ->
+  | "boundaryOK", [fsize; arr; incr; dts; sf] ->
+      str_of_bool (boundaryOK (z_of_hex fsize) (zlist_of_string arr) (z_of_hex incr) (bool_of_str dts) (sf_of sf))
+  | "applyHistorical", [incr; dts; sf; d] ->
+      str_of_tri (applyHistorical (z_of_hex incr) (bool_of_str dts) (sf_of sf) (tri_of_str d))
+  | "docModified", [v; fsize; f; arr; c; incr; dts; sf] ->
       str_of_tri (docModifiedWith (tri_of_str v) (z_of_hex fsize) (bytes_of_hex f) (zlist_of_string arr)
-                    (contents_of c) (z_of_hex incr) (bool_of_str dts))
-  | "docModifiedP7", [good; sha1ok; sigok; cmsc; fsize; f; arr; c; incr; dts] ->
-      str_of_tri (docModifiedP7With (bytes_of_hex good) (bool_of_str sha1ok) (bool_of_str sigok) (bytes_of_hex cmsc)
-                    (z_of_hex fsize) (bytes_of_hex f) (zlist_of_string arr) (contents_of c) (z_of_hex incr) (bool_of_str dts))
+                    (contents_of c) (z_of_hex incr) (bool_of_str dts) (sf_of sf))
+  | "docModifiedP7", [good; goodsig; hasattrs; sha1ok; sigok; cmsc; fsize; f; arr; c; incr; dts] ->
+      str_of_tri (docModifiedP7With (bytes_of_hex good) (bytes_of_hex goodsig) (bool_of_str hasattrs) (bool_of_str sha1ok)
+                    (bool_of_str sigok) (bytes_of_hex cmsc)
+                    (z_of_hex fsize) (bytes_of_hex f) (zlist_of_string arr) (contents_of c) (z_of_hex incr) (bool_of_str dts) SF_Other)
+  | "docModifiedP1", [good; fsize; f; arr; c; incr; dts] ->
+      str_of_tri (docModifiedP1With (bytes_of_hex good)
+                    (z_of_hex fsize) (bytes_of_hex f) (zlist_of_string arr) (contents_of c) (z_of_hex incr) (bool_of_str dts) SF_Other)
   | _ -> failwith ("unknown function " ^ fn)
 let () = main dispatch
